@@ -16,4 +16,4 @@ def target(*a, **k):
 
 assumed = lemma = target
 requires = ensures = modifies = raises_nothing = raises_only = ensures_raises = on_any_exit = _clause
-invariant = abstract = witness = let = unroll = uses_lemma = _clause
+invariant = abstract = witness = let = unroll = uses_lemma = define = cut = _clause
